@@ -647,7 +647,8 @@ pub fn gen_layout(rng: &mut Rng, id: u32, o: GenOpts) -> Layout {
     }
     for f in fields.iter_mut() {
         if rng.chance(30, 100) {
-            f.attr_order = rng.below(6) as u8;
+            // 0..=5: argument order, +6: trailing comma
+            f.attr_order = rng.below(12) as u8;
         }
         if rng.chance(12, 100) {
             f.doc = rng.range(1, 2) as u8;
@@ -655,6 +656,11 @@ pub fn gen_layout(rng: &mut Rng, id: u32, o: GenOpts) -> Layout {
         if f.kind == Kind::EnumExh && rng.chance(60, 100) {
             f.variant_rot = rng.range(1, 255) as u32;
         }
+    }
+    // a keyword as field name (raw identifier): the accessors are r#type(), with_type(), set_type()
+    if rng.chance(4, 100) {
+        let k = rng.usize_below(fields.len());
+        fields[k].name = (*rng.pick(&["r#type", "r#match", "r#fn", "r#struct"])).to_string();
     }
     // guarantee at least one writable and one readable field so every layout can do some work
     if !fields.iter().any(|f| f.access.writable()) {
@@ -731,7 +737,7 @@ pub fn gen_probes(rng: &mut Rng, n: u32, first_id: u32) -> Vec<Layout> {
         let d = rng.chance(1, 2);
         // a bounds check may live where one particular argument is parsed: vary the order
         if rng.chance(45, 100) {
-            fields[0].attr_order = rng.below(6) as u8;
+            fields[0].attr_order = rng.below(12) as u8;
         }
         out.push(probe(id, n, name, fields, d));
         id += 1;
